@@ -43,6 +43,14 @@ CLAIMED = {
              "three lag counts, all slope arrays over -1..1 for 2 and 4 frames (8 frames sparse / exhaustive in thorough), exact "
              "sinusoids; each TLC state is one implementation test (exact rational / Z[sqrt 2] expected values, 1e-9).",
         note="Bounded scope. The statistical clause (estimator on generated screens follows the analytic curve) is not decided."),
+    "C12": dict(
+        engine="tlc+replay", design_ref="DESIGN.md §3 C12",
+        technique="TLA+ spec Zernike.tla: Noll-index walk (state machine over the (n,|m|) enumeration) vs the integer arithmetic of zernIndex; exact integer radial coefficients and Cartesian mode polynomials; the transcribed gamma rules proved to be the x/y gradients by exact polynomial identity; all tables replayed into zernIndex/zernikeRadialFunc/zernike_nm/zernikeArray/phaseFromZernikes/makegammas",
+        text="TLC checks NollImpl = NollDef, membership/parity and ordering for every index up to the bound, R(1)=1 and continuum "
+             "orthogonality of the radial polynomials, and dP_j/dx = sum rho P_j' exactly for every mode up to the radial-order bound; "
+             "the real functions are compared with those tables at every index, every pixel of every grid size 2..9 (odd and even), "
+             "with rotations, list/count slices, p2v/rms normalisations and linear combinations.",
+        note="Bounded (MaxJ, MaxRad in cfg). Gram -> identity as the grid is refined is a limit and is not decided."),
 }
 
 NOT_APPLICABLE = {
